@@ -521,3 +521,37 @@ PROPS["C16"] = dict(
     prereq_note=["C05 totality", "C08 conservation", "C17 memory contract"],
     outside=RX_OUTSIDE,
 )
+
+
+# ---------------------------------------------------------------------------------------------
+# Members added after the first seeded-change round (DESIGN 9.6): all-size coverage of payload
+# positions on both sides, the big-extension error path, CRC wiring through encap_ext, bursts.
+# ---------------------------------------------------------------------------------------------
+POS_TX = [H("c06::encap_payload_position_lattice", bounds=LATTICE + "; PDU zero except ONE symbolic byte at a symbolic position: it lands at header + position, nothing else is disturbed", unwind=8, cost=15),
+          H("c06::encap_frag_payload_position_lattice", bounds="pdu_len 0..=65535, buffer 0..=70000, every context; one symbolic PDU byte at a symbolic position", cost=10)]
+RXL_BOUNDS = "frame and storage lengths 0..=5000 and GSE length up to 4095 all symbolic; contents zero except one symbolic payload byte (and one stored-prefix byte) at symbolic positions; RefMem, 1 slot"
+
+
+def rxl(names):
+    return [H(f"rxl::{n}", bounds=RXL_BOUNDS, unwind=8, stubs=STUB_HDR + ([STUB_WALKER] if n in ("complete_lattice", "first_lattice") else []), cost=40, mem_gb=4, timeout=600) for n in names]
+
+
+BIGEXT = H("c09::encap_ext_big_mandatory_lattice", bounds=LATTICE + "; one mandatory extension with 0..=5000 data bytes (the extensions alone may exceed a GSE packet)", unwind=8, cost=30)
+
+PROPS["C01"]["harnesses"] += [POS_TX[0]] + rxl(["complete_lattice"])
+PROPS["C02"]["harnesses"] += POS_TX + rxl(["first_lattice", "intermediate_lattice", "end_lattice"])
+PROPS["C03"]["harnesses"] += rxl(["intermediate_lattice", "end_lattice", "first_lattice"]) + [
+    H("c03b::burst_up_to_32_bits_detected", tier="thorough", bounds="every message of 4 + 3 + 8 bytes with its trailer; every non-zero 32-bit pattern at every bit offset of the 19 protected bytes", unwind=10, cost=200, timeout=1800, mem_gb=8)]
+PROPS["C06"]["harnesses"] += POS_TX + [BIGEXT]
+PROPS["C08"]["harnesses"] += rxl(["complete_lattice", "first_lattice", "intermediate_lattice", "end_lattice"])
+PROPS["C09"]["harnesses"] += [BIGEXT]
+PROPS["C04"]["harnesses"] += [BIGEXT]
+PROPS["C15"]["harnesses"] += [BIGEXT]
+PROPS["C10"]["harnesses"] += rxl(["complete_lattice", "first_lattice", "intermediate_lattice", "end_lattice"])
+PROPS["C12"]["harnesses"] += [H("c12::sender_wiring_ext", bounds="encap_ext with one optional extension; PDU <= 8, buffer <= 32; RecCrc records the call", unwind=10, cost=60, timeout=900)]
+PROPS["C13"]["harnesses"] += [BIGEXT]
+for _p in ("C01", "C02", "C03", "C08", "C10"):
+    PROPS[_p]["outside"] = [o for o in PROPS[_p]["outside"] if not o.startswith(("byte strings longer", "storage other than 6", "PDU byte equality", "payload byte equality"))] + [
+        "arbitrary CONTENTS beyond the byte tier: the all-size members carry one symbolic byte in an otherwise zero payload (position and length arithmetic for every size; not every content)",
+        "more than 2 slots; packets with extension headers are covered by the C13 members only"]
+PROPS["C15"]["harnesses"] = [h for h in PROPS["C15"]["harnesses"]]
